@@ -24,10 +24,11 @@ RULE = ("case = traversal of one edge K -> K+{S} of the lattice of knowledge set
         "lower never decreases / upper never increases across a reveal (== on exact families, 64*eps*n*scale "
         "otherwise); each real gap function (exploitability, l1, l2, linf) equals the reference gap of the observed "
         "table, is non-increasing, >= 0 and ~0 at full knowledge. Distinct = hash(values, K, S, computer); non-trivial "
-        "= the table changed across the edge.")
+        "= the table changed across the edge. The same is observed through ICG_Gym: several episodes on one env (un-steps back "
+        "to the initial knowledge before the next reset), no reveal may widen an interval or lower the reward.")
 SHARDS = {"quick": 4, "thorough": 16}
 BUDGET = {"quick": 45, "thorough": 420}
-REQUIRED = ["edges_checked", "gap_values_checked", "full_knowledge_states", "euler_walks", "sam_edges", "sa_edges"]
+REQUIRED = ["edges_checked", "gap_values_checked", "full_knowledge_states", "euler_walks", "sam_edges", "sa_edges", "env_reveal_steps"]
 
 GAPS = {"exploitability": compute_exploitability, "l1_norm": l1_norm, "l2_norm": l2_norm, "linf_norm": linf_norm}
 
@@ -110,6 +111,66 @@ def walk(ctx, case) -> None:
         ctx.violation("raised-during-walk", f"{type(exc).__name__}: {exc} (n={n}, computer={comp})", case)
 
 
+def env_episodes(ctx, case) -> None:
+    """The same monotonicity observed through the environment (the anchor icg_gym.py): several episodes on ONE env,
+    each followed by taking moves back (un-steps) before the next reset; within an episode no reveal may widen an
+    interval or lower the reward."""
+    import random as pyrandom
+    from incomplete_cooperative.run.model import ModelInstance
+    from .c09 import Recorder
+    n, comp, gapname = case["n"], case["computer"], case["gap"]
+    rng = pyrandom.Random(case["seed"])
+    inst = ModelInstance(number_of_players=n, game_class=comp, game_generator=case["generator"], gap_function=gapname, seed=case["seed"])
+    inst.game_generator_fn = Recorder(inst.game_generator_fn, case.get("scale", 1.0), case.get("offset", 0.0))
+    try:
+        env = inst.get_env()
+        nexp = len(env.explorable_coalitions)
+        for ep in range(case["episodes"]):
+            env.reset()
+            values = np.array(env.full_game.get_values(), dtype=np.float64)
+            scale = float(np.max(np.abs(values))) or 1.0
+            slack = sut.ulp_slack(n, scale)
+            gslack = sut.gap_tol(n, scale)
+            _, lo, up = sut.table(env.incomplete_game)
+            reward = float(env.reward)
+            order = list(range(nexp))
+            rng.shuffle(order)
+            taken = []
+            for a in order[: rng.randint(1, nexp)]:
+                ret = env.step(a)
+                taken.append(a)
+                _, nlo, nup = sut.table(env.incomplete_game)
+                nreward = float(ret[1])
+                ctx.count("edges_checked")
+                ctx.count("env_reveal_steps")
+                ctx.count("sam_edges" if comp.startswith("sam") else "sa_edges")
+                bad = None
+                if np.any(nlo < lo - slack):
+                    i = int(np.nonzero(nlo < lo - slack)[0][0])
+                    bad = ("lower-decreased-on-reveal", f"coalition {i}: lower {lo[i]!r} -> {nlo[i]!r}")
+                elif np.any(nup > up + slack):
+                    i = int(np.nonzero(nup > up + slack)[0][0])
+                    bad = ("upper-increased-on-reveal", f"coalition {i}: upper {up[i]!r} -> {nup[i]!r}")
+                elif nreward < reward - gslack:
+                    bad = ("gap-increased-on-reveal", f"env reward {reward!r} -> {nreward!r} ({gapname})")
+                elif nreward > gslack:
+                    bad = ("gap-negative", f"env reward {nreward!r} > 0")
+                if bad:
+                    c = dict(case)
+                    c["failed_in_episode"] = ep
+                    ctx.violation(bad[0], f"{bad[1]} after env.step({a}) in episode {ep} (taken {taken}, n={n}, generator="
+                                  f"{case['generator']}, computer={comp})", c)
+                    return
+                ctx.case((values.tolist(), tuple(taken), comp, "env"), not (np.array_equal(lo, nlo) and np.array_equal(up, nup)))
+                lo, up, reward = nlo, nup, nreward
+            if rng.random() < 0.6:
+                rng.shuffle(taken)
+                for a in taken:                      # back to the initial knowledge before the next reset
+                    env.unstep(a)
+    except Exception as exc:
+        ctx.violation("raised-during-walk", f"{type(exc).__name__}: {exc} (env episodes, n={n}, computer={comp})", case)
+
+
 def game_for(rng, n, comp):
     if comp.startswith("sam"):
         fam = rng.choice(gen.SAM_FAMILIES)
@@ -142,7 +203,16 @@ def run(ctx) -> None:
     ctx.count("euler_walks")
     ctx.count("euler_walks_n4")
     # random reveal orders to full knowledge with random back-tracking, n = 4..6, all computers
+    i_env = 0
     while not ctx.out_of_time(2.0):
+        i_env += 1
+        if i_env % 6 == 0:
+            g_ = rng.choice(["noisy_factory", "xos", "xs", "graph_random", "factory_cheerleader_next", "oxs", "noisy_factory_square"])
+            comp_ = rng.choice(all_comps[:5]) if g_ in ("xos", "xs", "oxs") else rng.choice(sut.SA_COMPUTERS)
+            env_episodes(ctx, {"n": rng.choice([3, 4, 4, 5]), "generator": g_, "computer": comp_, "gap": rng.choice(list(GAPS)),
+                               "seed": rng.randint(0, 10**6), "episodes": rng.randint(2, 4), "scale": rng.choice(sut.SCALES),
+                               "offset": rng.choice([0.0, 0.0, -1e6]), "kind": "env"})
+            continue
         n = rng.choice([4, 5, 5, 6])
         comp = rng.choice([c for c in all_comps if c != "sam_apx_1000" and not (c == "sam_apx_100" and n >= 6)])
         fam, values, exact = game_for(rng, n, comp)
@@ -158,4 +228,7 @@ def run(ctx) -> None:
 
 
 def replay(ctx, case) -> None:
+    if case.get("kind") == "env":
+        env_episodes(ctx, case)
+        return
     walk(ctx, case)
